@@ -60,6 +60,9 @@ def run(ctx):
     rep.rule("C04.R3", "offset dependence of the point kinematics family", 10)
     rep.rule("C04.R4", "RigidBody state slices and kinematic-equation kernel", 8)
     rep.rule("C04.R5", "E_kin uses the mass data of M", 1)
+    rep.rule("C04.R6", "RigidBody builds its rotation (and its q-derivative) with the normalising quaternion kernel: a rotation for any nonzero quaternion", 4)
+    from .c11 import normalising_rule
+    normalising_rule(ctx, "C04.R6", lambda rel: rel == "cardillo/discrete/rigid_body.py", 4)
     model = ctx.model
     for cname, rel in FILES.items():
         ci = model.cls(cname, rel)
@@ -200,4 +203,13 @@ MUTANTS = [
          new="            cross3(u_dot[3:], B_r_CP) + cross3(u[2:5], cross3(u[3:], B_r_CP))\n        )\n\n    def a_P_q", expect="C04.R4"),
 ]
 MUTANTS = [m for m in MUTANTS if not m.get("optional")]
-NEUTRAL = []
+MUTANTS += [
+    dict(id="c04-r6-seed", canary=True, what="[seeded by sub-agent] RigidBody.A_IB / A_IB_q without normalisation ('quaternions are normalised anyway')", file=RB,
+         edits=[(RB, "        return Exp_SO3_quat(q[3:])\n", "        return Exp_SO3_quat(q[3:], normalize=False)\n"),
+                (RB, "        A_IB_q[:, :, 3:] = Exp_SO3_quat_P(q[3:])\n", "        A_IB_q[:, :, 3:] = Exp_SO3_quat_P(q[3:], normalize=False)\n")],
+         expect="C04.R6"),
+]
+NEUTRAL = [
+    dict(id="c04-n-r6", what="RigidBody.A_IB spells the default out", file=RB,
+         old="        return Exp_SO3_quat(q[3:])\n", new="        return Exp_SO3_quat(q[3:], normalize=True)\n"),
+]
